@@ -19,6 +19,9 @@ CLAIMS = {
  "C15": ("call-graph reachability from Check (static + own-type CHA) and per-site obligations: unchecked type assertions, nil-dereference with callee nil/failure-signal summaries and edge-sensitive branch facts, verdict totality (must-pass), bounds idioms, abort scan",
          "For every function reachable from Check in own code, enumerates every site of the panic classes that originate in own code (type assertion, nil dereference of a value that can be nil, index/slice, map write, explicit abort) and requires a recognised discharging idiom at each; an unrecognised site fails closed. Decides crash-freedom for those classes over all inputs and IdP/store answers; panics inside jwx/net/http/protobuf/go-redis and termination are not decided.",
          "go/ssa model; dependency functions follow the (value, error) convention; generated getters are nil-safe (checked for own generated code); protojson yields no nil repeated elements"),
+ "C17": ("must-pass/branch-fact ordering of the load pipeline, error discipline over the loader's own functions, enforcement-site table checked in the merge code and in the generated validators, post-state rules, C15 crash-class rules with Validate as entry",
+         "Decides that a nil result of Validate can only be the verdict of the generated ValidateAll reached after decode, URL validation and merge succeeded; that each obligation named by the property has an enforcement site that guards an error on the merged configuration; that overrides are replaced and the default cleared; and that no own-code panic class is reachable while loading. The space of JSON documents is not explored.",
+         "go/ssa model; protojson/protoc-gen-validate runtime contracts; generated code is read like any other source"),
 }
 
 NOT_YET = "check under construction in this round; see DESIGN.md section 4 for the planned static rules"
